@@ -749,6 +749,11 @@ impl Engine for LoadEngine {
                         b.extend_from_slice(&bytes[end..]);
                         out.push(LoadCase { base: Base::Bytes(hex(&b)), ..case.clone() });
                         start += chunk;
+                        // the minimiser asks again after every accepted reduction: a bounded list of the
+                        // coarsest candidates is enough (a 1 MB input would otherwise yield millions of copies)
+                        if n > 4096 && out.len() >= 96 {
+                            return out;
+                        }
                     }
                     if chunk == 1 {
                         break;
